@@ -346,6 +346,8 @@ def execute(spec, world):
             C["unclassified_settable:" + pair] += 1
             continue
 
+        if kind == "bad":
+            C["fault.invalid_target." + arg["bad"]] += 1
         valid = kind in ("factor", "abs_zero")
         if kind == "bad" and arg["bad"] == "zero" and prop == "radius" and \
                 tcls.startswith("ConvexSphero"):
@@ -368,6 +370,7 @@ def execute(spec, world):
                     cls=tcls, prop=prop, what="accepted"))
                 break
             res["sets"]["pairs_refused"].add(pair + ":" + type(exc).__name__)
+            C["fault.refused_operation." + type(exc).__name__] += 1
             if changed:
                 res["violations"].append(violation(
                     PROP, "bad-target", "%s = %r raised %s after changing the shape" % (
